@@ -130,6 +130,24 @@ class Analyzer:
                 i = strip_casts(d['init'])
                 if i.get('k') == 'mem' and i['f'] in ('content', 'length') and i['f'] not in stored_fields:
                     self.field_alias[d['d']] = (None, i['f'], i)
+        # integer locals that hold a copy of B->offset (size_t offset = buffer->offset; ... buffer->offset = offset;): every
+        # plain assignment to them is from that field; ++/--/+= c move the copy like they would move the field
+        self.offset_copies = {}
+        srcs = {}
+        for d in fn.locals():
+            if 'init' in d:
+                srcs.setdefault(d['d'], []).append(d['init'])
+        for a in fn.nodes():
+            if a.get('k') == 'bin' and a['op'] == '=' and strip_casts(a['l']).get('k') == 'ref':
+                srcs.setdefault(strip_casts(a['l'])['d'], []).append(a['r'])
+        for d in fn.locals():
+            if u.ty(d['ty'])['c'] != 'int':
+                continue
+            ss = [x for x in srcs.get(d['d'], []) if const_val(x) != 0]
+            if ss and all(strip_casts(x).get('k') == 'mem' and strip_casts(x)['f'] == 'offset' for x in ss):
+                bs = {self.buf_key(strip_casts(x)['b']) for x in ss}
+                if len(bs) == 1 and None not in bs:
+                    self.offset_copies[d['d']] = (bs.pop(), d['n'])
         ths = set()
         for n in fn.nodes():
             v = const_val(n)
@@ -168,6 +186,9 @@ class Analyzer:
             return self.buf_key(e['b'])
         if e.get('k') == 'ref' and e.get('d') in self.field_alias and self.field_alias[e['d']][1] == field:
             return self.field_alias[e['d']][0]
+        if field == 'offset' and e.get('k') == 'ref' and e.get('d') in getattr(self, 'offset_copies', {}):
+            b, n = self.offset_copies[e['d']]
+            return '%s#%s' % (b, n)         # a view of buffer b whose cursor is the local copy
         return None
 
     def ptr_norm(self, e):
@@ -189,12 +210,12 @@ class Analyzer:
             if e['op'] == '+':
                 bl = self.buf_field(e['l'], 'content')
                 br = self.buf_field(e['r'], 'offset')
-                if bl and bl == br:
-                    return ('cur', bl, 0)
+                if bl and br and bl == br.split('#')[0]:
+                    return ('cur', br, 0)
                 bl = self.buf_field(e['r'], 'content')
                 br = self.buf_field(e['l'], 'offset')
-                if bl and bl == br:
-                    return ('cur', bl, 0)
+                if bl and br and bl == br.split('#')[0]:
+                    return ('cur', br, 0)
             return None
         if k == 'ref' and e.get('d') in self.field_alias and self.field_alias[e['d']][1] == 'content':
             return ('content', self.field_alias[e['d']][0], 0)
@@ -301,7 +322,13 @@ class Analyzer:
             self.check_array(node, key, c, idx, st, record, 'read')
             return
         if kind == 'content':
-            return
+            ix = strip_casts(idx) if not isinstance(idx, int) else None
+            vb = self.buf_field(ix, 'offset') if ix is not None else None
+            if vb and vb.split('#')[0] == key and c == 0:
+                kind, key, idx = 'cur', vb, 0       # B->content[copy of B->offset]
+                pn = (kind, key, 0)
+            else:
+                return
         if kind == 'ptr' and key not in self.tracked_ptrs:
             return
         if not record:
@@ -381,6 +408,16 @@ class Analyzer:
                     iv = self.ieval(ev.rhs, st)
                     if iv != TOP:
                         st.int[d['d']] = iv
+                    if d['d'] in self.offset_copies:
+                        b, n = self.offset_copies[d['d']]
+                        view = '%s#%s' % (b, n)
+                        src = self.buf_field(ev.rhs, 'offset')
+                        st.buf.pop(view, None)
+                        st.off.pop(view, None)
+                        if src and src in st.buf:
+                            st.buf[view] = st.buf[src]
+                        if src and src in st.off:
+                            st.off[view] = st.off[src]
                 elif t['c'] == 'record' and self.is_pbuf_type(d['ty']):
                     init = strip_casts(ev.rhs)
                     if init.get('k') == 'initlist' and all(const_val(i) == 0 or i.get('k') == 'initlist' or i.get('null')
@@ -399,6 +436,15 @@ class Analyzer:
     def assign_ptr(self, st, name, rhs):
         st.ptr.pop(name, None)
         self.kill_term(st, 'ptr', name)
+        r0 = strip_casts(rhs)
+        if r0.get('k') == 'call' and callee_name(r0) in self.reqs.get('@ret', {}):
+            # a position in the input returned by a family function (NULL or that many readable bytes)
+            st.rel.pop(name, None)
+            for k in [k for k, v in st.rel.items() if v[0] == name]:
+                del st.rel[k]
+            self.tracked_ptrs.add(name)
+            st.ptr[name] = (self.reqs['@ret'][callee_name(r0)], POS)
+            return
         pn = self.ptr_norm(rhs)
         st.rel.pop(name, None)
         for k in [k for k, v in st.rel.items() if v[0] == name]:
@@ -446,6 +492,17 @@ class Analyzer:
                         st.buf.pop(b)
                     return
                 st.off.pop(b, None)
+                # a view takes over the state of its buffer (size_t offset = buffer->offset) and gives it back
+                # (buffer->offset = offset)
+                src = self.buf_field(r, 'offset')
+                if src and src.split('#')[0] == b.split('#')[0] and src != b:
+                    if src in st.buf:
+                        st.buf[b] = st.buf[src]
+                    else:
+                        st.buf.pop(b, None)
+                    if src in st.off:
+                        st.off[b] = st.off[src]
+                    return
                 # offset = (size_t)(p - B->content)
                 if r.get('k') == 'bin' and r['op'] == '-' and self.buf_field(r['r'], 'content') == b:
                     pn = self.ptr_norm(r['l'])
@@ -802,6 +859,11 @@ class Analyzer:
 
     def refine_rel(self, L, op, Rr, st):
         a, b = self.side(L, st), self.side(Rr, st)
+        # a view B#v shares B's length
+        if a[0] == 'off' and b[0] == 'len' and a[1].split('#')[0] == b[1]:
+            b = ('len', a[1])
+        if a[0] == 'len' and b[0] == 'off' and b[1].split('#')[0] == a[1]:
+            a = ('len', b[1])
         # (offset + k) ? length
         if a[0] == 'off' and b[0] == 'len' and a[1] == b[1]:
             B = a[1]
@@ -1138,6 +1200,37 @@ def infer_requirements(u, fam, kmax=8):
                 changed = True
         if not changed:
             break
+    # pointers into the input handed back by family functions: how many bytes are readable at the returned position (on the
+    # returns that are not NULL), computed with the entry assumptions inferred above
+    rets = {}
+    for _round in range(3):
+        reqs['@ret'] = dict(rets)
+        new = {}
+        for fn in fam:
+            t = u.ty(fn.ret)
+            if not (t['c'] == 'ptr' and 'char' in t['s'] and t['s'].count('*') == 1):
+                continue
+            cps = _cursor_params(u, fn, rec)
+            assume = {name: reqs[fn.name].get(i, 0) for (i, name, _k) in cps}
+            an = Analyzer(u, fn, assume, reqs)
+            an.run()
+            worst = None
+            for r in an.cfg.returns():
+                if r.expr is None or is_null_const(r.expr):
+                    continue
+                st = an.states.get(r.id)
+                if st is None:
+                    continue
+                pn = an.ptr_norm(r.expr)
+                av = an.avail_of(pn, st) if pn else None
+                lo = av[0] if av is not None else NEG
+                worst = lo if worst is None else min(worst, lo)
+            if worst is not None and worst > NEG:
+                new[fn.name] = worst
+        if new == rets:
+            break
+        rets = new
+    reqs['@ret'] = dict(rets)
     return reqs
 
 
@@ -1197,6 +1290,42 @@ def bnd_parse(units, R):
             if s.rule in ('BND1', 'BND2'):
                 nreads += 1
             R.ob(s.rule, fn, s.node, s.what, s.ok, s.detail, key=s.key)
+        # nothing read from the input may escape the analysis: a load through a pointer that was derived from the input
+        # (B->content, the cursor, another such pointer) but for which no obligation was generated means the analysis does
+        # not follow that pointer - say so instead of passing
+        judged = {s.node.get('id') for s in sites}
+        derived = set()
+        changed = True
+        while changed:
+            changed = False
+            cand = [(d['d'], d.get('init')) for d in fn.locals() if 'init' in d]
+            cand += [(strip_casts(a['l'])['d'], a['r']) for a in fn.nodes() if a.get('k') == 'bin' and a['op'] in ASSIGN_OPS and
+                     strip_casts(a['l']).get('k') == 'ref']
+            for (dd, rhs) in cand:
+                if dd in derived or rhs is None:
+                    continue
+                decl = [x for x in list(fn.locals()) + list(fn.params) if x['d'] == dd]
+                if not decl or u.ty(decl[0]['ty'])['c'] != 'ptr' or 'char' not in u.ty(decl[0]['ty'])['s']:
+                    continue
+                if any((x.get('k') == 'mem' and x['f'] == 'content' and an.buf_key(x['b'])) or
+                       (x.get('k') == 'ref' and x.get('d') in derived) for x in walk(rhs)):
+                    derived.add(dd)
+                    changed = True
+        for nd in an.cfg.nodes:
+            for ev in node_effects(nd):
+                if ev.kind != 'load':
+                    continue
+                acc = access(ev.node)
+                if acc is None:
+                    continue
+                b = strip_casts(acc[0])
+                while b.get('k') == 'bin' and b['op'] in ('+', '-'):
+                    b = strip_casts(b['l'])
+                if b.get('k') == 'un' and b['op'] in ('post++', 'post--', 'pre++', 'pre--'):
+                    b = strip_casts(b['e'])
+                if b.get('k') == 'ref' and b.get('d') in derived and ev.node.get('id') not in judged and nd.id in an.states:
+                    raise AnalysisBroken('BND: %s reads the input through %s, a pointer the bounds analysis does not follow' % (
+                        fn.where(ev.node), b['n']))
         for (i, name, kind) in cps:
             k = reqs[fn.name].get(i, 0)
             R.note('BND: %s assumes %d readable byte(s) at %s on entry (checked at every call site)' % (fn.name, k, name))
